@@ -235,7 +235,7 @@ class GroupAddress(BaseAddress):
     def __init__(self, address: GroupAddressableType) -> None:
         """Initialize GroupAddress class."""
         if isinstance(address, int):
-            self.raw = address
+            self.raw = int(address)  # bool is an int - keep the string representation numeric
         elif isinstance(address, GroupAddress):
             self.raw = address.raw
         elif isinstance(address, str):
